@@ -56,6 +56,17 @@ func vText(T int) (text []byte, pos []vPos, nl string) {
 			col++
 		}
 	}
+	// A text cut in the middle of its last line break (a truncation of a text
+	// in a two-byte convention): the lone byte is not a line break of this
+	// text's convention, it stays on the last line and is not quoted.
+	if len(nl) == 2 && line > 1 && start != len(text) && zzverif.Bool("truncatedNewline") {
+		end := len(text)
+		pos = append(pos, vPos{line: line, col: col, lineStart: start})
+		pending = append(pending, len(text))
+		text = append(text, nl[0])
+		flush(end)
+		return
+	}
 	flush(len(text))
 	return
 }
@@ -88,6 +99,58 @@ func VerifC16_Position() {
 		zzverif.Reach("on-newline")
 	} else {
 		zzverif.Reach("on-text")
+	}
+	s := e.String()
+	zzverif.Assert(zzverif.Opaque(s) || len(s) > 0, "String() renders")
+}
+
+// VerifC16_LongLines: a diagnostic on a line of 190..210 or 450 bytes that is
+// the first, second or a later line of the text (the line may start beyond
+// byte 200): rendering succeeds and SourceSubString() is the whole line or a
+// prefix of it (at least 100 bytes) followed by "...".
+func VerifC16_LongLines() {
+	zzverif.Expect("whole", "shortened")
+	nl := []string{"\n", "\r\n"}[zzverif.IntRange("nl", 0, 1)]
+	before := []int{-1, 0, 3, 230}[zzverif.IntRange("before", 0, 3)] // bytes of text before the long line, -1: it is the first line
+	L := zzverif.IntRange("lineLen", 190, 211)
+	if L == 211 {
+		L = 450
+	}
+	after := zzverif.Bool("lineAfter")
+	var text []byte
+	if before >= 0 {
+		for k := 0; k < before; k++ {
+			if k%100 == 99 {
+				text = append(text, nl...)
+			} else {
+				text = append(text, 'p')
+			}
+		}
+		text = append(text, nl...)
+	}
+	begin := len(text)
+	for k := 0; k < L; k++ {
+		text = append(text, "abcdefghij"[k%10])
+	}
+	end := len(text)
+	if after {
+		text = append(text, nl...)
+		text = append(text, "zz"...)
+	}
+	where := zzverif.IntRange("where", 0, 4)
+	i := []int{begin, begin + 1, begin + L/2, end - 1, end}[where]
+	zzverif.Assume(i < len(text))
+	f := fs.NewFile("f", text)
+	e := NewJSchemaError(f, errs.ErrGeneric.F("m"))
+	e.SetIndex(bytes.Index(i))
+	got := e.SourceSubString()
+	line := string(text[begin:end])
+	if got == line {
+		zzverif.Reach("whole")
+	} else {
+		zzverif.Reach("shortened")
+		n := len(got) - 3
+		zzverif.Assert(n >= 100 && n < L && got[n:] == "..." && got[:n] == line[:n], "a long line is quoted as a prefix of the line followed by ...")
 	}
 	s := e.String()
 	zzverif.Assert(zzverif.Opaque(s) || len(s) > 0, "String() renders")
